@@ -109,6 +109,7 @@ func main() {
 	genBCD(*repo, *out)
 	info := genCodec(*repo, *out)
 	genMessages(*repo, *out, info)
+	genTypes(*repo, *out)
 }
 
 // ---------------------------------------------------------------------------------------------
